@@ -15,6 +15,15 @@ P = 'C15'
 LAST_HOCUR = {'exact': None}  # whether the last hocur call reproduced its tensor (used by the AMUSEt-HOCUR contract)
 
 
+def pristine(functions):
+    """deep copy of a (nested) list of basis-function objects: reference evaluations neither depend on nor disturb whatever the
+    live objects remember between calls"""
+    try:
+        return copy.deepcopy(functions)
+    except Exception:
+        return functions
+
+
 def product_tensor(factors):
     """factors[k][i, j] = value of the i-th function of mode k at snapshot j  ->  tensor (n_1..n_p, m)"""
     m = factors[0].shape[1]
@@ -37,7 +46,7 @@ def data_tensor_class(x, bl, cols=None):
         x = x[:, np.asarray(cols, dtype=int)]
     m = x.shape[1]
     with probe.oracle():
-        factors = [np.array([[float(f(x[:, j])) for j in range(m)] for f in fl]) for fl in bl]
+        factors = [np.array([[float(f(x[:, j])) for j in range(m)] for f in fl]) for fl in pristine(bl)]
     n = [f.shape[0] for f in factors]
     if int(np.prod(n)) * m > 2 ** 16:
         return 'regular'
@@ -100,7 +109,7 @@ class BasisDecomposition(probe.Contract):
         if int(np.prod([len(f) for f in phi])) * m > 2 ** 16:
             return
         with probe.oracle():
-            factors = [np.array([[float(f(x[:, j])) for j in range(m)] for f in fl]) for fl in phi]
+            factors = [np.array([[float(f(x[:, j])) for j in range(m)] for f in fl]) for fl in pristine(phi)]
         tags = ['snapshots=1' if m == 1 else 'snapshots>1'] + (['single_function_mode'] if any(len(f) == 1 for f in phi) else [])
         _check_result(c, self.api, res, factors, v['single_core'], tags)
         c.sig(self.api, [len(f) for f in phi], m, x.shape[0], v['single_core'] is not None)
@@ -119,7 +128,7 @@ class CoordinateMajor(probe.Contract):
         d, m = x.shape
         if len(phi) ** d * m > 2 ** 16:
             return
-        factors = [np.array([[float(f(x[i, j])) for j in range(m)] for f in phi]) for i in range(d)]
+        factors = [np.array([[float(f(x[i, j])) for j in range(m)] for f in pristine(phi)]) for i in range(d)]
         tags = ['snapshots=1' if m == 1 else 'snapshots>1']
         _check_result(c, self.api, res, factors, v['single_core'], tags)
         c.sig(self.api, len(phi), d, m, v['single_core'] is not None)
@@ -163,8 +172,8 @@ class Gram(probe.Contract):
         if int(np.prod([len(f) for f in bl])) * max(m1, m2) > 2 ** 16:
             return
         with probe.oracle():
-            f1 = [np.array([[float(f(x1[:, j])) for j in range(m1)] for f in fl]) for fl in bl]
-            f2 = [np.array([[float(f(x2[:, j])) for j in range(m2)] for f in fl]) for fl in bl]
+            f1 = [np.array([[float(f(x1[:, j])) for j in range(m1)] for f in fl]) for fl in pristine(bl)]
+            f2 = [np.array([[float(f(x2[:, j])) for j in range(m2)] for f in fl]) for fl in pristine(bl)]
         A = product_tensor(f1).reshape(-1, m1)
         B = product_tensor(f2).reshape(-1, m2)
         want = A.T @ B
@@ -228,7 +237,7 @@ class Hocur(probe.Contract):
         if int(np.prod(n)) * m > 2 ** 15 or not (_is_tt(res) and tt_consistent(res)[0]):
             return
         with probe.oracle():
-            factors = [np.array([[float(f(x[:, j])) for j in range(m)] for f in fl]) for fl in bl]
+            factors = [np.array([[float(f(x[:, j])) for j in range(m)] for f in fl]) for fl in pristine(bl)]
         want = product_tensor(factors)
         p = len(n)
         # true TT ranks of the transformed data tensor
